@@ -69,7 +69,7 @@ func Snapshot(root any) []string {
 		case reflect.Struct:
 			pp := t.PkgPath()
 			if t == reflect.TypeOf(vsched.Mutex{}) {
-				out = append(out, fmt.Sprintf("%s:mutex=%v", path, fmt.Sprint(v.Interface()) != "{false}"))
+				out = append(out, fmt.Sprintf("%s:mutex=%v", path, v.Field(0).Bool()))
 				return
 			}
 			if !strings.HasPrefix(pp, "github.com/avos-io/goat") || strings.Contains(pp, "/vh/") || strings.Contains(pp, "/gen/") || strings.Contains(pp, "/vrt/") {
